@@ -96,8 +96,27 @@ fn fix_crc(b: &mut Vec<u8>) { let n = b.len(); if n >= 4 { let c = ref_crc(&b[..
 /// Set by C03, which runs the same parser sweeps with the panic oracle only.
 pub static FOR_C03: std::sync::atomic::AtomicBool = std::sync::atomic::AtomicBool::new(false);
 
+/// set by C19: the same inputs, asking only that parsing (result dropped) leaves no heap block behind and breaks no allocator rule
+pub static FOR_C19: std::sync::atomic::AtomicBool = std::sync::atomic::AtomicBool::new(false);
+
 fn check_parse(bytes: &[u8], acc: &mut Acc, what: &str) {
     acc.evals += 1;
+    if FOR_C19.load(std::sync::atomic::Ordering::Relaxed) {
+        use crate::alloc;
+        // (a first parse outside the region lets thread-local scratch space reach its final size; the side table is emptied now and then)
+        let _ = guarded(|| Frame::read(bytes));
+        if acc.evals % 512 == 1 { alloc::reset(); }
+        let (before, f0) = (alloc::live(), alloc::fault_counters());
+        alloc::set_tracking(true);
+        let r = guarded(|| { let f = Frame::read(bytes); drop(f); });
+        alloc::set_tracking(false);
+        let (after, f1) = (alloc::live(), alloc::fault_counters());
+        if r.is_ok() {
+            if after != before { acc.violation(format!("case:parse:{}", hex(bytes)), viol("C19.leak", "C19.leak:frame-read".into(), format!("parsing a {}-byte datagram ({}) and dropping the result left {} heap bytes allocated", bytes.len(), what, after - before))); }
+            if f1 != f0 { acc.violation(format!("case:parse:{}", hex(bytes)), viol("C19.free", "C19.free:frame-read".into(), format!("parsing a {}-byte datagram ({}): {} releases with a wrong layout, {} of unknown blocks, {} repeated", bytes.len(), what, f1.0 - f0.0, f1.1 - f0.1, f1.2 - f0.2))); }
+        }
+        return;
+    }
     let r = guarded(|| Frame::read(bytes));
     if FOR_C03.load(std::sync::atomic::Ordering::Relaxed) {
         if let Err(p) = r {
